@@ -56,8 +56,8 @@ fn constrain(kind: u8, n: usize, v: i64, kf_region: bool) -> bool {
 modelled! {
     #[kani::unwind(3)]
     fn c04_a_constrain_u() {
-        let n: usize = kani::any(); kani::assume(n <= 12);
-        let v: i16 = kani::any();
+        let n: usize = kani::any(); kani::assume(n <= 16);
+        let v: i32 = kani::any(); kani::assume(v >= -(1 << 17) - 4 && v <= (1 << 17) + 4);
         let acc = constrain(0, n, v as i64, false);
         kani::cover!(acc && n >= 1 && v as i64 == pow2(n) - 1, "largest unsigned value accepted");
         kani::cover!(!acc && v as i64 == pow2(n), "first value above the unsigned range rejected");
@@ -67,8 +67,8 @@ modelled! {
 modelled! {
     #[kani::unwind(3)]
     fn c04_a_constrain_s() {
-        let n: usize = kani::any(); kani::assume(n >= 1 && n <= 12);
-        let v: i16 = kani::any();
+        let n: usize = kani::any(); kani::assume(n >= 1 && n <= 16);
+        let v: i32 = kani::any(); kani::assume(v >= -(1 << 17) - 4 && v <= (1 << 17) + 4);
         let acc = constrain(1, n, v as i64, false);
         kani::cover!(acc && v as i64 == pow2(n - 1) - 1, "largest signed value accepted");
         kani::cover!(acc && v as i64 == -pow2(n - 1), "most negative signed value accepted");
@@ -79,8 +79,8 @@ modelled! {
 modelled! {
     #[kani::unwind(3)]
     fn c04_a_constrain_i() {
-        let n: usize = kani::any(); kani::assume(n <= 12);
-        let v: i16 = kani::any();
+        let n: usize = kani::any(); kani::assume(n <= 16);
+        let v: i32 = kani::any(); kani::assume(v >= -(1 << 17) - 4 && v <= (1 << 17) + 4);
         let acc = constrain(2, n, v as i64, false);
         kani::cover!(acc && n >= 1 && v as i64 == pow2(n) - 1, "largest unsigned value accepted by iN");
         kani::cover!(acc && n >= 1 && v as i64 == -pow2(n - 1), "most negative signed value accepted by iN");
